@@ -102,6 +102,17 @@ fn ws_strategy(max: usize) -> impl Strategy<Value = Vec<u8>> {
     prop::collection::vec(prop::sample::select(WS.to_vec()), 0..=max)
 }
 
+/// Bytes that some definition of "white space" accepts but JSON does not (vertical tab, form
+/// feed, the C0 separators, NEL, no-break space, line separator, byte-order mark), mixed with real
+/// JSON white space: a frame padded with these is *not* a JSON document (the reference decides).
+const NEAR_WS: [&[u8]; 13] = [
+    b"\x0b", b"\x0c", b"\x1c", b"\x1d", b"\x1e", b"\x1f", b"\xc2\x85", b"\xc2\xa0", b"\xe2\x80\xa8", b"\xef\xbb\xbf", b"\x85", b" ", b"\n",
+];
+
+fn near_ws_strategy(max: usize) -> impl Strategy<Value = Vec<u8>> {
+    prop::collection::vec(prop::sample::select(NEAR_WS.to_vec()), 0..=max).prop_map(|v| v.concat())
+}
+
 pub fn pad_strategy(max_steps: usize) -> impl Strategy<Value = Pad> {
     prop_oneof![
         4 => (0usize..40).prop_map(Pad::Exact),
@@ -119,8 +130,9 @@ pub fn frame_spec_strategy(max_steps: usize) -> impl Strategy<Value = FrameSpec>
             .prop_map(|(kind, at, variant)| Body::Malformed { kind, at, variant }),
     ];
     let ws = prop_oneof![
-        3 => Just((vec![], vec![])),
-        1 => (ws_strategy(3), ws_strategy(3)),
+        12 => Just((vec![], vec![])),
+        4 => (ws_strategy(3), ws_strategy(3)),
+        1 => (near_ws_strategy(2), near_ws_strategy(2)),
     ];
     (body, pad_strategy(max_steps), ws).prop_map(|(body, pad, (ws_pre, ws_post))| FrameSpec {
         body,
